@@ -263,8 +263,10 @@ func (w *Watcher) handleUnconfirmedEvents(ctx context.Context, logger *zap.Logge
 		contractEvent := event
 		unconfirmed, err := w.toUnconfirmedEvent(&contractEvent)
 		if err != nil {
-			logger.Error("failed to convert to unconfirmed event", zap.Error(err))
-			return nil, err
+			// anyone can publish on the governance contract's event stream: a malformed
+			// event must not take the watcher (and every pending message) down
+			logger.Error("ignore event that is not a wormhole message", zap.Error(err))
+			continue
 		}
 		if unconfirmed.msg.IsAttestTokenVAA() {
 			logger.Info("received a message", zap.String("txId", unconfirmed.TxId), zap.String("blockHash", unconfirmed.BlockHash), zap.String("type", "attest"))
